@@ -9,7 +9,7 @@ import lanes
 ITYPES = [("i8", 1, True), ("u8", 1, False), ("i16", 2, True), ("u16", 2, False),
           ("i32", 4, True), ("u32", 4, False), ("i64", 8, True), ("u64", 8, False)]
 UN = ["neg", "abs", "incr", "decr", "sign", "op-u"]
-BIN = ["add", "sub", "mul", "min", "max", "sadd", "ssub", "avg", "avgr", "op+", "op-", "op*"]
+BIN = ["add", "sub", "mul", "min", "max", "fmin", "fmax", "sadd", "ssub", "avg", "avgr", "op+", "op-", "op*"]
 DIV = ["divmod", "op/%"]
 TER = ["fma", "fms", "fnma", "fnms"]
 MSK = ["incr_if", "decr_if"]
